@@ -31,12 +31,17 @@ EXPLANATION = ("Theorems C04_* prove the identities, [0,1] range, NaN locus, def
                "Second tie, for the DEFINITIONS: harness/metricdefs.py translates the current metrics.py / cm.py (Python ast) into "
                "the expression IR of SA/Model/MetricExpr.lean; the generated theorem generated_c04_defs_ok (kernel-checked on every "
                "run) lists the functions whose normal form num/den equals the model's, and SA.MetricExpr.checkAll_covered_sound "
-               "makes each of them the model's metric on EVERY rational matrix (coverage.generated_definitions).")
+               "makes each of them the model's metric on EVERY rational matrix (coverage.generated_definitions). Third tie, for "
+               "utils.binomial_ci itself: harness/cidefs.py translates its current body into the IR of SA/Model/CIDefs.lean (count, nobs, "
+               "z = isf(a*alpha+b), uninterpreted sqrt, NaN guards); generated_c04_ci_ok states the checker's verdict and "
+               "SA.CIDefs.ci_bridge makes an accepted row SA.binomialCI on every input (coverage.generated_definitions.binomial_ci).")
 TRUSTED_BASE = ["Lean 4.33 kernel", "axioms propext/Classical.choice/Quot.sound only",
                 "hand-written model SA/Model/Metrics.lean tied to /repo by this correspondence run",
                 "harness/metricdefs.py (translation Python ast -> expression IR: indexing, np.sum axes, np.divide(where=), np.where, "
                 "helper inlining, decorator pass-through check); values only - dtypes, warnings, leading axes, result types are the "
                 "business of the sampled runs",
+                "harness/cidefs.py (translation of utils.binomial_ci: NaN buffers, np.divide(out=, where=), np.where, np.sqrt, the "
+                "affine argument of norm.isf, np.stack); values only",
                 "scipy.stats.norm.isf and np.sqrt as oracles (isf antitone is a hypothesis of C04_ci_nested)",
                 "harness and driver parsing; tolerance 1e-9 on float-valued quantities"]
 ASSUMPTIONS = ["non-negative finite cells", "float sums of float-valued cells compared with tolerance",
@@ -67,7 +72,8 @@ def n_cases(tier):
 def extra_gate_start():
     """start the translator + Lean check in a child process; the sampled matrices run meanwhile"""
     import metricdefs
-    return metricdefs.start(common.REPO)
+    import cidefs
+    return metricdefs.start(common.REPO), cidefs.start(common.REPO)
 
 
 def extra_gate_finish(handle):
@@ -75,7 +81,11 @@ def extra_gate_finish(handle):
     definition and the model differ on a named witness matrix) is a broken proof obligation (run.py then searches the
     generated cases for a failing input: the separating matrices of `gen_matrix` provide one), unknowns are evidence only"""
     import metricdefs
-    return metricdefs.gate_result(metricdefs.finish(handle))
+    import cidefs
+    gate = metricdefs.gate_result(metricdefs.finish(handle[0]))
+    # third tie: utils.binomial_ci itself regenerated from the source (harness/cidefs.py; SA/Theorems/C04CIDefs.lean); its result
+    # goes into the same evidence slot under `binomial_ci`
+    return cidefs.merge_into(gate, cidefs.finish(handle[1]))
 
 
 def gen_matrix(rng, kind):
